@@ -164,7 +164,7 @@ F3_LIST = [
     (1, 1, 0, 1, 0, 0, 5, None, [r"new chunk obtained|request failed"]),
     (1, 1, 900, 16, 3, 448, 5, None, []),
     (1, 2, 700, 8, 1, 600, 5, None, []),
-    (16, 2, 700, 32, 1, 960, 5, None, []),
+    (16, 2, 700, 32, 1, 96, 5, None, []),
     (1, 0, 5, 1, 1, 0, 4, None, []),
     (16, 0, 0, 64, 1, 0, 4, None, []),
     (4, 0, 300, 2, 3, 0, 4, None, []),
@@ -186,6 +186,35 @@ for (m, k, sz, al, dp, off, uw, lim, ex) in F3_LIST:
               "refusal_mask": "any subset of the first 8 global-allocator requests (symbolic)",
               "block_displacement": "%d x requested chunk alignment (concrete per instance)" % dp, "pool_slot_bytes": 1136,
               "block_placement": "end-aligned in the slot", "unwind": uw})
+
+
+# ---------------------------------------------------------------------------
+# F0 base case: real constructors
+# ---------------------------------------------------------------------------
+F0_FUNCS = ["Bump::with_min_align", "Bump::try_with_min_align_and_capacity", "Bump::new_chunk", "Bump::new_chunk_memory_details", "<Bump as Drop>::drop"]
+for m in MS:
+    H("f0_empty_m%d" % m, "__verif::f0", "F0", quick=["C04"] + (["C03", "C08", "C06"] if m == 1 else []), thorough=["C03", "C04", "C08", "C18", "C20"],
+      cost=10, stubs=STUB_POOL, inst="Bump<%d>" % m, funcs=F0_FUNCS, bounds={"constructor": "with_min_align(), try_with_min_align_and_capacity(0)"})
+for m in (0, 3, 24, 32):
+    H("f0_invalid_m%d" % m, "__verif::f0", "F0", quick=["C04"], cost=5, stubs=STUB_NULL, inst="Bump<%d>" % m, funcs=F0_FUNCS,
+      allow=[r"MIN_ALIGN"],
+      bounds={"constructor": "with_min_align() and try_with_min_align_and_capacity(any capacity)", "expectation": "does not return (panic)"})
+for (m, c, d) in [(1, 1, 0), (1, 100, 1), (8, 448, 3), (16, 449, 1), (2, 960, 0), (4, 500, 1)]:
+    H("f0_cap_m%d_c%d_d%d" % (m, c, d), "__verif::f0", "F0",
+      quick={(1, 100): ["C18", "C03", "C08"], (16, 449): ["C18", "C04"], (8, 448): ["C01"]}.get((m, c), []),
+      thorough=["C01", "C03", "C04", "C08", "C18"], cost=40, timeout=900, stubs=STUB_POOL, inst="Bump<%d>" % m, funcs=F0_FUNCS,
+      bounds={"capacity": "%d (concrete per instance)" % c, "block_displacement": "%d x alignment" % d, "refusal_mask": "symbolic"})
+for m in (1, 16):
+    H("f0_cap_any_m%d" % m, "__verif::f0", "F0", quick=["C19", "C09"] + (["C18"] if m == 1 else []), thorough=["C09", "C18", "C19"], cost=20,
+      stubs=STUB_NULL, inst="Bump<%d>" % m, funcs=F0_FUNCS, bounds={"capacity": "any usize", "allocator": "A-null"})
+
+# ---------------------------------------------------------------------------
+# F8 chunk iteration
+# ---------------------------------------------------------------------------
+for (m, k) in [(1, 1), (1, 2), (1, 3), (8, 2), (16, 3)]:
+    H("f8_iter_m%d_k%d" % (m, k), "__verif::f8", "F8", quick=["C10"] if (m, k) in [(1, 2), (16, 3)] else [], thorough=["C10"], cost=30,
+      stubs=STUB_CUT, inst="Bump<%d>" % m, funcs=["Bump::iter_allocated_chunks", "Bump::iter_allocated_chunks_raw", "ChunkRawIter::next", "ChunkIter::next", "ChunkFooter::as_raw_parts"],
+      bounds={"chunks": k, "finger_positions": "any (symbolic per chunk)", "chunk_usable_sizes": [448, 960, 1984][:k]})
 
 
 for x in "abcdef":
